@@ -219,7 +219,7 @@ func extractHttpStatus(repo string) (string, error) {
 	}
 	var b strings.Builder
 	b.WriteString("namespace GqlgenVerif.Gen.HttpStatus\n\n")
-	b.WriteString("/-- gqlparser `ast.Operation` constants the GET guard compares against -/\ninductive AstOp | astQuery | astMutation | astSubscription\n  deriving DecidableEq, Repr, BEq\n\n")
+	b.WriteString("/-- gqlparser `ast.Operation` constants the GET guard compares against -/\ninductive AstOp | astQuery | astMutation | astSubscription\n  deriving DecidableEq, Repr\n\n")
 
 	// ---- errcode
 	ec, err := parse("graphql/errcode/codes.go")
